@@ -244,6 +244,33 @@ func TestVX_C03(t *testing.T) {
 			run(fmt.Sprintf("smallx:%d:-y+p", pi), b32(P.X), b32(yp), b32(e), b32(rv), b32(sv))
 		}
 	}
+	// (vii) the id- and message-level verifiers on arguments of the wrong length: false, never a panic
+	if vx.MineIdx(1) {
+		b := bases[0]
+		id, msg := []byte("1234567812345678"), []byte("message digest")
+		za, _ := sm2ref.ZA(id, b.px, b.py)
+		for ai, name := range []string{"px", "py", "r", "s"} {
+			for _, l := range []int{0, 1, 31, 33, 64} {
+				args := [][]byte{b.px, b.py, b.r, b.s}
+				m := make([]byte, l)
+				copy(m, args[ai])
+				args[ai] = m
+				r.Eval(2)
+				var ok1, ok2 bool
+				kind, pm := vx.Try(func() {
+					ok1, _ = sm2.Verify(id, args[0], args[1], msg, args[2], args[3])
+					ok2, _ = sm2.VerifyZa(args[0], args[1], za[:], msg, args[2], args[3])
+				})
+				cs := c03case{Shape: fmt.Sprintf("wrapper-len:%s:%d", name, l), PX: vx.Hex(args[0]), PY: vx.Hex(args[1]), R: vx.Hex(args[2]), S: vx.Hex(args[3])}
+				if kind != "" {
+					r.Violation("verify:wrapper-panic", fmt.Sprintf("Verify/VerifyZa panicked with a %d-byte %s: %s", l, name, pm), cs)
+				} else if ok1 || ok2 {
+					r.Violation("verify:wrapper-accepts-bad-length", fmt.Sprintf("Verify/VerifyZa accepted a %d-byte %s", l, name), cs)
+				}
+				r.Shape(cs.Shape)
+			}
+		}
+	}
 	// (v) short-t / short-r / short-s valid signatures must be accepted (solved as in C01)
 	d := keys["sa"]
 	px, py := sm2ref.Pub(d)
